@@ -48,7 +48,7 @@ def method_name(r):
 
 def run_shard(tier, seed, idx, n, res, tmp):
     b = budget(tier)
-    for ci in range(idx, b['specs'], n):
+    for ci in common.case_range(idx, b['specs'], n, res):
         cs = common.case_seed(PROPERTY, seed, ci)
         rnd = random.Random(cs)
         m = gm.generate(cs, profile(ci))
